@@ -1,10 +1,10 @@
 #!/bin/sh
 # developer tool: all quick (or thorough) checks under several seeds; prints everything that is not OK
-# usage: tools/soak.sh <tier> <seed>...
+# usage: [SOAK_CHECKS="C04 C17"] tools/soak.sh <tier> <seed>...
 tier=$1; shift
 cd "$(dirname "$0")/.."
 for s in "$@"; do
-  for i in C01 C02 C03 C04 C05 C06 C07 C08 C09 C10 C11 C12 C13 C14 C15 C16 C17 C18; do
+  for i in ${SOAK_CHECKS:-C01 C02 C03 C04 C05 C06 C07 C08 C09 C10 C11 C12 C13 C14 C15 C16 C17 C18}; do
     VERIF_SEED=$s ./vp check $i --tier $tier 2>&1 | grep -E "^(OK|VIOLATION|TOOL)" | head -3 | sed "s/^/seed=$s /" | cut -c1-200
   done
 done
